@@ -1,6 +1,7 @@
 """C03 - block caches are transparent.
-In ReaderP SetCache changes nothing; ReaderI with a policy-free cache (capacity 1-2) is
-checked by TLC for every schedule: data identity, no stale cache mapping, no panic, no
+In ReaderP SetCache changes nothing; ReaderI with a policy-free cache (capacity 1-2; optionally
+one whose Get keeps used blocks, as cache.FIFO does, and one that arrives holding blocks of
+another reader) is checked by TLC for every schedule: data identity, no stale cache mapping, no panic, no
 deadlock, nothing left running after Close; every history runs on the real reader once
 without and once with caches (LRU/FIFO/Random, StatsRecorder, capacity 1-4, attached,
 replaced and removed at arbitrary points) and both must satisfy ReaderP, reply for reply
@@ -14,8 +15,14 @@ def run(ctx):
     ctx.rule = ("as C02, plus SetCache(kind in {LRU, FIFO, Random, none}, capacity 1-4, optionally in a StatsRecorder) at arbitrary points and from the "
                 "start; every history is run uncached first and the cached run's replies are compared with it (field `same`); distinct = scenarios")
     ctx.assumptions = _reader.ASSUME
-    _reader.model(ctx, ["fixed_q", "fixed_rd1", "fixed_cap2", "fixed_fault"],
-                  ["fixed_q", "fixed_rd1", "fixed_cap2", "fixed_fault", "fixed_rd3", "fixed_rd3cap2", "fixed_n4"])
+    _reader.model(ctx, ["fixed_q", "fixed_rd1", "fixed_cap2", "fixed_fault", "fixed_fifo_rd1", "fixed_foreign"],
+                  ["fixed_q", "fixed_rd1", "fixed_cap2", "fixed_fault", "fixed_rd3", "fixed_rd3cap2", "fixed_n4",
+                   "fixed_fifo_rd1", "fixed_foreign", "fixed_fifo"])
+    # the model is not vacuous about shared caches: with cacheSwap's early return on another reader's
+    # block (the code before d7bbfb4) and a cache whose Get keeps used blocks, TLC finds the stale mapping
+    ctx.mrejects("BgzfReader", "ReaderMC", "ReaderMC_only_EarlyReturnOnForeign.cfg", "NoStaleMapping")
+    if ctx.tier == "thorough":
+        ctx.mrejects("BgzfReader", "ReaderMC", "ReaderMC_only_EarlyReturnOnForeign_rd2.cfg", "NoStaleMapping")
     ctx.build()
     trace = ctx.work + "/rd3.ndjson"
     s = ctx.drive(["rd", "--mode", "c03", "--out", trace], timeout=7200)
